@@ -66,8 +66,17 @@ func (g *gen) stmt(d int) {
 	if inLoop {
 		cs = append(cs, choice{5, g.stmtJump})
 	}
-	if g.fc.f != nil && len(g.fc.results) > 0 && g.fc.named == nil && g.inExprClosure == 0 && !g.insideClosure() && g.noReturn == 0 {
-		cs = append(cs, choice{2, g.stmtEarlyReturn})
+	if g.fc.f != nil && g.fc.f.recv == nil && g.fc.named == nil && g.inExprClosure == 0 && !g.insideClosure() && g.noReturn == 0 && !g.fc.isMain {
+		w := 2
+		for _, c := range g.fc.ctl {
+			if c.kind == cxLoop {
+				w += 5 // returns that abandon loops (range loops most of all) are worth more programs
+				if c.isRange {
+					w += 6
+				}
+			}
+		}
+		cs = append(cs, choice{w, g.stmtEarlyReturn})
 	}
 	if g.fc.f != nil && g.fc.named == nil && g.chance(4) && !g.insideClosure() {
 		cs = append(cs, choice{3, func() { g.panicStmt(false) }})
@@ -915,9 +924,17 @@ func (g *gen) stmtEarlyReturn() {
 			}
 		}
 	}
-	if loops >= 2 && g.avoided("return:in-nested-loop") || inRange && g.avoided("return:in-range-loop") {
+	if loops >= 2 && len(g.fc.results) > 0 && g.avoided("return:in-nested-loop") {
+		// known-bad shape: a VALUE-returning function that returns from inside two or more nested loops
 		g.stmtPrint()
 		return
+	}
+	if inRange {
+		g.fc.rangeRet = true
+		g.feat("return-in-range-loop")
+	}
+	if loops >= 2 {
+		g.feat("return-in-nested-loops")
 	}
 	g.feat("early-return")
 	g.line("if %s {", g.boolExpr(1))
@@ -935,7 +952,11 @@ func (g *gen) stmtEarlyReturn() {
 		g.noCalls--
 	}
 	g.retDone()
-	g.line("return %s", strings.Join(es, ", "))
+	if len(es) == 0 {
+		g.line("return")
+	} else {
+		g.line("return %s", strings.Join(es, ", "))
+	}
 	g.ind--
 	g.line("}")
 }
@@ -1063,6 +1084,14 @@ func (g *gen) closureBody(sig *fn, d int, head, tail string) {
 	g.line("%s", head)
 	g.ind++
 	saveFc, saveStmts := g.fc, g.stmts
+	inRange := 0
+	for _, c := range saveFc.ctl {
+		if c.kind == cxLoop && c.isRange {
+			inRange = 1
+		}
+	}
+	g.rangeDepth += inRange
+	defer func() { g.rangeDepth -= inRange }()
 	g.fc = &fctx{f: sig, results: sig.results, noDefer: saveFc.noDefer}
 	g.stmts = 1 + g.pick(4)
 	g.scopes = append(g.scopes, &scope{closure: true})
@@ -1081,6 +1110,10 @@ func (g *gen) closureBody(sig *fn, d int, head, tail string) {
 		g.line("return %s", ret)
 	}
 	sig.pure = !g.fc.impure
+	sig.rangeRet = g.fc.rangeRet
+	if g.fc.rangeRet {
+		saveFc.rangeRet = true
+	}
 	sig.panics = g.fc.panics
 	if g.fc.panics {
 		saveFc.panics = true
